@@ -246,3 +246,5 @@ def run(F, rep, tier):
         rep.floor("C14-R4", "set construction sites in set()", len(comp), 1)
     from rules.loopshape import c14_generator_source_per_environment
     c14_generator_source_per_environment(F, rep)
+    from rules.loopshape import c14_membership_complement
+    c14_membership_complement(F, rep)
